@@ -47,12 +47,12 @@ type family struct {
 	// Arguments for base.CheckComparer. ccPrefixes is closed under removal of leading bytes so that
 	// the random tail CheckComparer appends is always already present (its verdict is deterministic).
 	ccPrefixes, ccSuffixes [][]byte
-	// emptyPrefixSeparator=false excludes Separator calls where a key has an empty prefix (testkeys:
-	// such keys are not produced by the package's generators, see rule text).
+	// separatorNeedsPrefix excludes Separator calls where a key has an empty prefix (testkeys: such
+	// keys are not produced by the package's generators and Separator("@1","a@1") panics "empty keys"
+	// because the prefix is delegated to DefaultComparer.Separator; see the rule text).
 	separatorNeedsPrefix bool
-	// cockroachkvs only: the block universe (sorted by Compare, ties by generation order) and probes.
-	blockKeys [][]byte
-	probes    [][]byte
+	// cockroachkvs only: the seek probes of the block phase.
+	probes [][]byte
 }
 
 func hx(k []byte) string { return hex.EncodeToString(k) }
@@ -63,10 +63,6 @@ func hxs(ks ...[]byte) []string {
 		out[i] = hx(k)
 	}
 	return out
-}
-
-func (f *family) show(k []byte) string {
-	return fmt.Sprintf("%q", k)
 }
 
 // ---------------------------------------------------------------- key universes
@@ -174,6 +170,19 @@ var crdbRoachKeys = []string{"", "a", "a\x00", "ab", "b", "a\xff", "\x00", "\xff
 // them DataBlockEncoder.Finish panics "unreachable" when every row of the block has an empty prefix).
 const crdbBlockRoachKeys = 5
 
+// blockUniverse returns the keys of roach keys 1..n x all versions, sorted by Compare (ties keep the
+// generation order).
+func (f *family) blockUniverse(n int) [][]byte {
+	var out [][]byte
+	for _, rk := range crdbRoachKeys[1 : n+1] {
+		for _, v := range crdbVersions {
+			out = append(out, crdbKey([]byte(rk), v))
+		}
+	}
+	slices.SortStableFunc(out, f.cmp.Compare)
+	return out
+}
+
 func crdbKey(roachKey []byte, v crdbVersion) []byte {
 	if v.raw != nil {
 		return cockroachkvs.EncodeKey(nil, roachKey, v.raw)
@@ -192,17 +201,13 @@ func cockroachFamily() *family {
 		k := crdbKey([]byte("x"), v)
 		f.suffixes = append(f.suffixes, slices.Clone(k[2:]))
 	}
-	for i, rk := range crdbRoachKeys {
+	for _, rk := range crdbRoachKeys {
 		for _, v := range crdbVersions {
 			k := crdbKey([]byte(rk), v)
 			f.keys = append(f.keys, k)
 			f.probes = append(f.probes, k)
-			if i >= 1 && i <= crdbBlockRoachKeys {
-				f.blockKeys = append(f.blockKeys, k)
-			}
 		}
 	}
-	slices.SortStableFunc(f.blockKeys, f.cmp.Compare)
 	var pfx [][]byte
 	for _, rk := range crdbRoachKeys {
 		pfx = append(pfx, append([]byte(rk), 0))
@@ -934,7 +939,7 @@ func TestCheck(t *testing.T) {
 						}
 					}
 					c.State(vlib.Hash(f.name, "pair", a, b, ab, sep))
-					if (i*nk+j)%4099 == 7 {
+					if (i*nk+j)%7919 == 7 {
 						c.Sample(map[string]any{"family": f.name, "kind": "pair", "a": hx(a), "b": hx(b), "compare": ab, "separator": hx(sep)})
 					}
 					for k := 0; k < nk; k++ {
@@ -999,26 +1004,17 @@ func TestCheck(t *testing.T) {
 			}
 		}
 
-		// Columnar blocks (cockroachkvs only): every subset of the sorted block universe of size
-		// 1..maxRows, smallest first.
+		// Columnar blocks (cockroachkvs only): for each plan, every subset of the plan's sorted block
+		// universe of size 1..maxRows, smallest first.
 		if complete {
 			f := fams["cockroachkvs"]
-			u := len(f.blockKeys)
-			maxRows := 4
+			type blockPlan struct {
+				roachKeys int // roach keys 1..roachKeys of crdbRoachKeys
+				maxRows   int
+			}
+			plans := []blockPlan{{crdbBlockRoachKeys, 4}}
 			if c.Thorough() {
-				maxRows = 5
-			}
-			for i := 1; i < u; i++ {
-				if f.cmp.Compare(f.blockKeys[i-1], f.blockKeys[i]) > 0 {
-					c.Incomplete("block universe is not sorted by the comparer; block phase skipped")
-					complete = false
-				}
-			}
-			var offs []int
-			total := 0
-			for k := 1; k <= maxRows; k++ {
-				offs = append(offs, total)
-				total += binom(u, k)
+				plans = []blockPlan{{crdbBlockRoachKeys, 5}, {len(crdbRoachKeys) - 1, 4}}
 			}
 			workers := make(chan *blockWorker, 64)
 			var all []*blockWorker
@@ -1027,7 +1023,26 @@ func TestCheck(t *testing.T) {
 				all = append(all, w)
 				workers <- w
 			}
-			if complete {
+			var planNotes []string
+			for _, pl := range plans {
+				universe := f.blockUniverse(pl.roachKeys)
+				u, maxRows := len(universe), pl.maxRows
+				sorted := true
+				for i := 1; i < u; i++ {
+					if f.cmp.Compare(universe[i-1], universe[i]) > 0 {
+						sorted = false
+					}
+				}
+				if !sorted {
+					c.Incomplete("block universe cannot be sorted with the comparer; block phase skipped")
+					break
+				}
+				var offs []int
+				total := 0
+				for k := 1; k <= maxRows; k++ {
+					offs = append(offs, total)
+					total += binom(u, k)
+				}
 				done, ok := c.Each(total, func(i int) {
 					w := <-workers
 					defer func() { workers <- w }()
@@ -1039,7 +1054,7 @@ func TestCheck(t *testing.T) {
 					unrank(i-offs[k-1], u, k, idx[:k])
 					rows := make([][]byte, k)
 					for j := 0; j < k; j++ {
-						rows[j] = f.blockKeys[idx[j]]
+						rows[j] = universe[idx[j]]
 					}
 					p := &probe{}
 					var blk []byte
@@ -1081,24 +1096,23 @@ func TestCheck(t *testing.T) {
 					default:
 						w.outcomes["block/all-prefixes-distinct"]++
 					}
+					h := vlib.Hash("block", blk)
 					if shared && len(kinds) > 1 {
-						c.Nontrivial(vlib.Hash("block", blk))
+						c.Nontrivial(h)
 					}
-					if k <= 3 || i%64 == 0 {
-						c.State(vlib.Hash("block", blk))
-					}
-					if i%200003 == 11 {
+					c.State(h)
+					if i%200003 == 100011 {
 						c.Sample(map[string]any{"family": f.name, "kind": "block", "rows": hxs(rows...), "shown": f.shown(rows...), "block_bytes": len(blk)})
 					}
 				})
-				scope["cockroachkvs.block.universe"] = u
-				scope["cockroachkvs.block.max_rows"] = maxRows
-				scope["cockroachkvs.block.subsets"] = total
-				scope["cockroachkvs.block.probes_per_block"] = len(f.probes)
+				planNotes = append(planNotes, fmt.Sprintf("universe %d keys (%d roach keys x %d versions), rows 1..%d: %d/%d blocks, %d probes each",
+					u, pl.roachKeys, len(crdbVersions), maxRows, done, total, len(f.probes)))
 				if !ok {
-					c.Incomplete(fmt.Sprintf("budget expired after %d of %d blocks (subsets enumerated by size, smallest first); all pair/triple phases complete", done, total))
+					c.Incomplete(fmt.Sprintf("budget expired after %d of %d blocks of the plan (universe %d, rows<=%d; subsets enumerated by size, smallest first); all pair/triple phases and earlier block plans complete", done, total, u, maxRows))
+					break
 				}
 			}
+			scope["cockroachkvs.blocks"] = planNotes
 			for _, w := range all {
 				c.Eval(int(w.evals))
 				c.Trans(int(w.trans))
